@@ -629,7 +629,12 @@ func (t *ComparableTree) NewScanner(key Comparable) *ComparableCursor {
 		n = child
 	}
 	ln := n.(*comparableLeafNode)
-	return newComparableCursor(ln, comparableSearchGreaterThanOrEqualTo(key, ln.runts))
+	index := comparableSearchGreaterThanOrEqualTo(key, ln.runts)
+	if index < len(ln.runts) && ln.runts[index].Less(key) {
+		// every key of this leaf is smaller than key: start at the next leaf
+		index++
+	}
+	return newComparableCursor(ln, index)
 }
 
 // ComparableCursor is used to enumerate key-value pairs from the tree in
